@@ -214,9 +214,12 @@ func runSupervised(c *Ctx, prop string) {
 			// two connections were established; the second is closed now: each gets its one DISCONNECTED
 			closed := CloseWatched(conn)
 			if _, quiet := rig.WaitNoLib(WaitShort, 400); closed && !quiet {
-				// (the goroutine that ended the first connection may not have delivered its DISCONNECTED yet)
-				c.R.Inconcl(fmt.Sprintf("%s: library goroutines still running after Close", Case("sup", idx)))
-				return
+				// (the goroutine that ended the first connection may not have delivered its DISCONNECTED yet - unless
+				// nothing can move any more: then the count is final)
+				if ds := rig.ProveDead(WaitShort); !ds.Dead {
+					c.R.Inconcl(fmt.Sprintf("%s: library goroutines still running after Close (%s)", Case("sup", idx), ds.Reason))
+					return
+				}
 			}
 			nd := 0
 			for _, e := range lg.Events() {
